@@ -240,6 +240,11 @@ def call_sites():
     return obs
 
 
+for _sfx in ("", "_async"):
+    for _b in ("none", "scalar", "array"):
+        render_node_contract("C15", _sfx, _b, lambda: REPLAY)
+
+
 not_covered("C15", "environment and template globals are shared by design (the statement allows 'global data')", "the snippet tag and inline templates")
 
 bounded("C15", "bounded/C15.py")
